@@ -17,7 +17,7 @@ import json, sys
 d = sys.argv[1]
 print(json.dumps({"Replace": {"/repo/" + f: d + "/src/" + f for f in sys.argv[2:]}}))
 PY
-VERIF_EXTRA_OVERLAY="$d/extra.json" VERIF_BIN_SUFFIX=$suf VERIF_OUT="$d/out" VERIF_MUT_SRC="$d/src" ./check.sh "$id" "$tier" > "$d/log" 2>&1
+VERIF_FIRST_VIOLATION=1 VERIF_EXTRA_OVERLAY="$d/extra.json" VERIF_BIN_SUFFIX=$suf VERIF_OUT="$d/out" VERIF_MUT_SRC="$d/src" ./check.sh "$id" "$tier" > "$d/log" 2>&1
 rc=$?
 grep -E "VIOLATION|KNOWN-FINDING|INTERNAL|^  key=|^C[0-9]+ " "$d/log" | head -20
 if [ $rc -eq 1 ] && grep -q "^VIOLATION property=$id " "$d/log"; then echo "DETECTED $id by $(basename "$diff")"; exit 0; fi
